@@ -226,6 +226,8 @@ class SockTranslator:
         self.in_branch = False
         self.breaks = []
         self.param_fields = {}
+        self.aux = []             # named definitions of the loops: (name, kind, text)
+        self.nloops = 0
         self._check_signature()
 
     # -- signature
@@ -869,6 +871,10 @@ class SockTranslator:
     def while_stmt(self, st, fl):
         const_true = isinstance(st.test, ast.Constant) and st.test.value in (1, True) and type(st.test.value) in (int, bool)
         c = 'true' if const_true else self.truth(st.test, fl)
+        if self.handler_exc:
+            raise Unsupported(st, 'loop inside an exception handler')
+        self.nloops += 1
+        base = '%s.loop%d' % (self.def_name(), self.nloops)
         self.loop_depth += 1
         saved, self.in_branch = self.in_branch, True
         self.breaks.append(False)
@@ -895,7 +901,10 @@ class SockTranslator:
         if after is not None:
             after = Flow(after.assigned, after.nonnull - written)
         self.uses_fuel = True
-        return 'Blk.whileLoop (fun s => %s)\n%s\n%s lfuel' % (c, _paren(body), _paren(orelse)), after
+        self.aux.append((base + '.cond', 'cond', 'fun s => ' + c))
+        self.aux.append((base + '.body', 'blk', body))
+        self.aux.append((base + '.orelse', 'blk', orelse))
+        return 'Blk.whileLoop (%s.cond net lfuel) (%s.body net lfuel) (%s.orelse net lfuel) lfuel' % (base, base, base), after
 
     def try_stmt(self, st, fl):
         if st.finalbody:
@@ -937,6 +946,9 @@ class SockTranslator:
         handler = '(fun %s => %s\nelse none)' % (ev, '\nelse '.join(arms))
         return 'Blk.tryExcept %s\n%s\n%s' % (_paren(body), handler, _paren(orelse)), out
 
+    def def_name(self):
+        return self.cls['lean_name'] + '.' + self.spec['lean_name'].split('.')[-1]
+
     # -- the definition
     def emit(self):
         params = list(self.spec['params'])
@@ -954,6 +966,9 @@ class SockTranslator:
         fuel = ' (lfuel : Nat)' if self.uses_fuel else ''
         frame = 'Fr (%s.St φ) (%s.L φ) W' % (cn, name)
         out = '\n'.join(lines) + '\n\n'
+        for an, kind, text in self.aux:      # the loops, innermost first: condition, body, else clause
+            ty = ('%s → Bool' % frame) if kind == 'cond' else 'Blk (%s) %s' % (frame, show_type(self.rtype, False))
+            out += 'def %s (net : Net W φ) (lfuel : Nat) : %s :=\n%s\n\n' % (an, ty, indent_lean(text))
         out += 'def %s.body (net : Net W φ)%s : Blk (%s) %s :=\n' % (name, fuel, frame, show_type(self.rtype, False))
         out += indent_lean(body) + '\n\n'
         ps = ''.join(' (%s : %s)' % (lean_field(p), show_type(parse_type(self.spec['params'][p]))) for p in params)
